@@ -52,7 +52,7 @@ def run_demo(wt, demo_dir):
         # shell demonstration: demo.sh <worktree>; exit status 0 = passes
         shs = sorted(glob.glob(os.path.join(demo_dir, "*.sh")))
         if shs:
-            return sh(["sh", shs[0], wt], cwd=demo_dir, timeout=1200)
+            return sh(["bash", shs[0], wt], cwd=demo_dir, timeout=1200)
         return None, "no *_test.go / *.sh demo files"
     rc, out = sh(["go", "test", "-vet=off", "-count=1", "-run", "Seed|seed|Demo", "-timeout", "600s"] + DEMO_FLAGS + sorted(dirs), cwd=wt)
     for c in copied:
